@@ -22,6 +22,8 @@ namespace {
 using vh::Payload;
 using yaclib::FailPolicy;
 
+int g_sub_calls = 0;
+
 template <typename T>
 struct In {
   bool shared = false;
@@ -56,6 +58,14 @@ struct In {
       SetAny(yaclib::StopTag{});
     } else {
       SetAny(std::make_exception_ptr(vh::TestError{"e" + std::to_string(i)}));
+    }
+  }
+  // another subscriber of the same shared state (the combinator is not alone in its callback list)
+  void Subscribe() {
+    if (shared) {
+      s.SubscribeInline([](const yaclib::Result<T>&) {
+        ++g_sub_calls;
+      });
     }
   }
   void Drop() {
@@ -156,7 +166,18 @@ std::string Drive(const Prog& p, I1& a, I2& b, I3& c, Build build) {
   for (int k = 0; k != p.pre; ++k) {
     complete(p.order[static_cast<std::size_t>(k)] - '0');
   }
+  // every shared input has one subscriber before the combinator is built and one after
+  a.Subscribe();
+  b.Subscribe();
+  if (p.n == 3) {
+    c.Subscribe();
+  }
   auto out = build();
+  a.Subscribe();
+  b.Subscribe();
+  if (p.n == 3) {
+    c.Subscribe();
+  }
   for (int k = p.pre; k != p.n; ++k) {
     complete(p.order[static_cast<std::size_t>(k)] - '0');
   }
@@ -266,11 +287,12 @@ int WhenMain(int, char**) {
     std::istringstream is(line);
     is >> p.strat >> p.n >> p.outs >> p.order >> p.pre >> p.form >> p.kind;
     Payload::ResetCounters();
+    g_sub_calls = 0;
     auto s0 = vrt::GetAllocStats();
     std::string d = Run(p);
     auto s1 = vrt::GetAllocStats();
-    std::printf("%ld out=%s;live=%ld;leak=%ld\n", idx, d.c_str(), Payload::live,
-                static_cast<long>(s1.news - s0.news) - static_cast<long>(s1.deletes - s0.deletes));
+    std::printf("%ld out=%s;live=%ld;leak=%ld;subs=%d\n", idx, d.c_str(), Payload::live,
+                static_cast<long>(s1.news - s0.news) - static_cast<long>(s1.deletes - s0.deletes), g_sub_calls);
     std::fflush(stdout);
     ++idx;
   }
